@@ -251,10 +251,10 @@ def ref_match(rf, txn, rows, mode='first_match', transformed=False):
 # ======================================================================================== generator
 CATS = [('Food', 'Grocery'), ('Food', 'Delivery'), ('Subscriptions', 'Streaming'), ('Transport', ''), ('Shopping', 'Online'),
         ('Bills', 'Rent'), ('Income', 'Salary'), ('Travel', 'Air'), ('Health', '')]
-STATIC_TAGS = ['recurring', 'Business', 'LARGE', 'income', 'Transfer', 'needs review', 'q1', 'café', ' padded ']
+STATIC_TAGS = ['recurring', 'Business', 'LARGE', 'income', 'Transfer', 'needs review', 'q1', 'café', ' padded ', 'ref #1', 'acct # 2']
 DYN_TAGS = ['{field.memo}', '{source}', '{extract("REF:(\\\\d+)")}', '{label}', '{split("-", 0)}', '{field.code}', '{txn.location}',
             '{lowercase(field.memo)}', '{field.nope}', '{ }', '{trim(field.memo)}', '{substring(description, 0, 4)}',
-            '{extract(field.code, "#(\\\\d+)")}']
+            '{extract(field.code, "#(\\\\d+)")}', '{extract("Foods #(\\\\d+)")}', '{extract(field.code, "REF:\\\\d+ #(\\\\d+)")}']
 TRANSFORMS = [
     ('field.description', 'regex_replace(field.description, "^SQ \\\\*", "")'),
     ('field.description', 'strip_prefix(field.description, "UBER ")'),
